@@ -111,6 +111,28 @@ def call_grid_prep_opt_any(ex, st, args, kwargs, node):
 
 
 # ----------------------------------------------------------------------------------------------
+# grid.grid_prep_opt(n, d, int) for an integer array n and a GIVEN dimension d (func_sum / func_get hand the vector of mode sizes through
+# grid_prep_opts): the array itself - the dimension is only read for number options.  (Unit grid.grid_prep_opt.int_array of contracts/qtt.py
+# covers d = None.)
+
+@unit('grid.grid_prep_opt.int_array.d', props=('C18', 'C12'))
+def u_prep_opt_int_array_d(U):
+    fn = U.func('grid', 'grid_prep_opt')
+    ex = U.executor(fn)
+    st = U.state()
+    n0 = z3.Int('n0')
+    A = X.ivec(n0, z3.Const('v', IA))
+    st.vars.update(opt=A, d=S.opt_int('d'), kind=M.TypeVal('int'), reps=NONE)
+    res = U.run(ex, st, pre=[n0 >= 0])
+    U.cover('reachable', U.pre)
+    for p, o in res:
+        R = p.deref(o.value) if o.kind == 'return' else None
+        ok = isinstance(R, VArr) and R.ndim == 1 and R.shape[0] is A.shape[0] and R.t is A.t and R.tag == A.tag and R.dtype == 'i'
+        U.post('same-integer-vector-whatever-the-dimension-argument', p, z3.BoolVal(ok))
+    U.post('no-fork-on-the-dimension', [], z3.BoolVal(len(res) == 1))
+
+
+# ----------------------------------------------------------------------------------------------
 # func.func_gets (kind='cheb'): values of the interpolant on a new Chebyshev grid, as a TT-tensor
 #
 # For every core k the result core is the mode product  cmode(A[k], B_k) = np.einsum('riq,ij->rjq', A[k], B_k)  with the basis matrix
@@ -838,3 +860,67 @@ def u_int_general_1d(U):
 @unit('func.func_int_general.nodes_per_core', props=('C12', 'C09'))
 def u_int_general_2d(U):
     _int_general_unit(U, 2)
+
+
+# ----------------------------------------------------------------------------------------------
+# Hand-made mutants (MUT_BASE=/tmp/base tools/mut.sh func.py '<sed>' <units>) and the named obligation that reports each.
+# R(f, g) abbreviates the sed address '/^def f(/,/^def g/' that restricts the edit to one function.
+#
+# func.func_gets.m_{none,int,float,list}
+#   s/T = func_basis(X, n\[k\])/T = func_basis(X, m[k])/           (only m_k coefficients)   call-pre einsum-contracted-dimensions-agree (m_int, m_list; equivalent for m = None)
+#   s/ind_to_poi(I, -1., +1., m\[k\], 'cheb')/ind_to_poi(I, -1., +1., n[k], 'cheb')/        call-pre ind_to_poi: indices within the grid, inv-keep loop0.basis-matrix-holds-T_i-at-the-Chebyshev-nodes-...
+#   s/ind_to_poi(I, -1., +1., m\[k\]/ind_to_poi(I, 0., +1., m[k]/                           inv-keep loop0.basis-matrix-holds-T_i-at-the-Chebyshev-nodes-... (all cases)
+#   s/np.einsum('riq,ij->rjq', A\[k\], T)/np.einsum('riq,ij->rjq', A[0], T)/                call-pre einsum-contracted-dimensions-agree, inv-keep loop0.core-shapes-..., loop0.core-is-the-mode-product-...
+#   s/grid_prep_opt(m, d, int)/grid_prep_opt(m, d-1, int)/                                  safety array-index-in-range (m_int)
+#   quiet (equivalent): `T = ...; Tk = T`, a temporary for the einsum result, range(len(A)); undecided: T renamed (ContractMismatch), other einsum strings (Unsupported)
+# func.func_int                     (inside R(func_int, func_int_general))
+#   s/(y.shape\[1\] - 1)/(y.shape[1])/                                                       inv-keep loop0.every-slice-is-the-DCT-I-slice-over-(n-1)-with-halved-ends
+#   s/A\[k\]\[:, -1, :\] \/= 2./A[k][:, 1, :] \/= 2./                                         the same
+#   s/A\[k\]\[:, 0, :\] \/= 2./pass/                                                          the same
+#   s/A\[k\]\[:, -1, :\] \/= 2./A[k][:, -1, :] \/= 4./                                        the same
+#   s/dct(y, 1, axis=1)/dct(Y[0], 1, axis=1)/                                                 inv-keep loop0.finished-entries-are-cores-of-the-shape-of-the-value-cores, loop0.every-slice-...
+#   quiet (equivalent): `A[k][:, 0, :] = A[k][:, 0, :] / 2.`, `*= 0.5`; undecided: dct(.., axis=0) / type 2 (Unsupported)
+# func.func_sum.{number,list}       (from '/^def func_sum(/' to the end)
+#   s/v \*= (bk - ak) \/ 2./v *= (bk - ak)/                                                   inv-keep loop0.accumulated-product-is-the-Clenshaw-Curtis-chain-over-the-finished-modes
+#   s/v \*= (bk - ak) \/ 2./v *= (bk + ak) \/ 2./                                              the same (list case: timeout = undecided, number case: failed)
+#   s/np.arange(0, n_max, 2)/np.arange(1, n_max, 2)/                                          safety elementwise-division-by-nonzero, call-pre matmul-inner-dims-agree, post weights-are-2/(1-i^2)-...
+#   s/p\[:(nk + 1)\/\/2\]/p[:nk\/\/2]/                                                          call-pre matmul-inner-dims-agree
+#   s/p = 2. \/ (1 - np.arange/p = 1. \/ (1 - np.arange/                                      post weights-are-2/(1-i^2)-at-the-even-indices-i=2m
+#   s/n_max = max(n)/n_max = max(n) - 1/                                                      call-pre matmul-inner-dims-agree
+#   quiet (equivalent): `v = v * ((bk - ak) / 2.)`, `v *= 0.5 * (bk - ak)`; undecided: y[:, 1::2], 1 + arange**2 (Unsupported)
+# func.func_get.*                   (inside R(func_get, func_get_spectral))
+#   s/        skip_out = True/        skip_out = False/                                      inv-keep loop0.finished-points-hold-the-fill-value-resp-the-chained-value (numbers), post points-outside-... (one_point)
+#   s/y = np.ones(m) \* z/y = np.ones(m) * 0./                                                inv-init loop0.remaining-points-still-hold-the-fill-value
+#   s/np.max(a - X\[i, :\]) > 1.E-99/np.max(X[i, :] - a) > 1.E-99/                            inv-keep loop0.finished-points-..., post points-outside-... / points-inside-...
+#   s/poi_scale(x, ai, bi, 'cheb')/poi_scale(x, bi, ai, 'cheb')/                              call-pre poi_scale: a < b
+#   s/for j in range(1, d):/for j in range(1, d - 1):/                                        inv-keep loop0.finished-points-..., post points-inside-the-box-receive-the-chained-value
+#   s/A\[j\], T\[j\]\[i\])/A[j], T[0][i])/                                                      call-pre einsum-contracted-dimensions-agree, inv-keep loop1.partial-product-is-the-chain-...
+#   s/        a = -1$/        a = 0/                                                           post weights-of-point-s-in-mode-k-are-T_j-at-the-scaled-coordinate-... (default_box, upper_bound_only)
+#   s/                continue/                pass/                                          inv-keep loop0.finished-points-... (numbers), post points-outside-... (one_point)
+#   s/ or np.max(X\[i, :\] - b) > 1.E-99:/:/                                                   the same
+#   quiet (equivalent): `z * np.ones(m)`; undecided: zip(funcs, X, n) (contract mismatch), T[0][i, :] (Unsupported)
+# func.func_diff_matrix.shapes.m{1,2,3}, .invalid_kind, func.func_diff_matrix_apply
+#   s/l = (2. \/ (b - a))\*\*(i+1)/l = (2. \/ (b - a))**i/                                     post matrix-of-order-k-is-scaled-by-(2/(b-a))^k (refuted)
+#   s/l = (2. \/ (b - a))\*\*(i+1)/l = ((b - a) \/ 2.)**(i+1)/                                 the same (refuted)
+#   s/return D_list\[0\] if m == 1 else D_list/return D_list/                                 post first-order-only: ONE matrix is returned, not a list (m1)
+#   s/D_list.append(D \* l)/D_list.append(D)/                                                 post matrix-of-order-k-is-an-array-times-a-number
+#   s/for i in range(m):/for i in range(m+1):/                                                post a-list-of-m-matrices-is-returned (m2, m3)
+#   s/D = np.eye(n)/D = np.eye(n+1)/                                                          call-pre elementwise-shapes-agree
+#   s/raise ValueError('Invalid "kind"')/return None/                                         post an-unknown-kind-raises-ValueError, kind-other-raises-ValueError
+#   s/raise NotImplementedError()/return A/                                                   post kind-cheb-raises-NotImplementedError
+# func.func_int_general.{shared_nodes,nodes_per_core}   (inside R(func_int_general, func_sum))
+#   s/H_mat = basis_func(X_curr).T/H_mat = basis_func(X[0]).T/   (first core's matrix reused)  inv-keep loop0.finished-cores-are-the-folded-least-squares-solutions-...-of-their-OWN-nodes (nodes_per_core)
+#   s/cond=rcond/rcond=rcond/                        (the pinned-tree defect)                 call-pre scipy.linalg.lstsq-has-a-parameter-named-rcond
+#   s/overwrite_b=False/overwrite_b=True/            (the pinned-tree defect)                 inv-keep loop0.lstsq-is-called-without-overwriting-and-with-the-caller-rcond
+#   s/cond=rcond)/cond=1.E-6)/                                                                the same
+#   s/zip(Y, X, H_mats)/zip(Y[1:], X, H_mats)/                                                inv-keep loop0.finished-cores-..., post same-number-of-cores, ...
+#   s/Q.reshape(n, r1, r2)/Q.reshape(n, r2, r1)/                                              inv-keep loop0.finished-cores-...
+#   s/\[basis_func(X).T\] \* d/[basis_func(X)] * d/                                           inv-keep loop0.finished-cores-... (shared_nodes)
+#   quiet (equivalent): enumerate(zip(..))
+# grid.grid_prep_opts.values.*, grid.grid_prep_opt.int_array.d     (grid.py)
+#   s/b = grid_prep_opt(b, d, float, reps)/b = grid_prep_opt(a, d, float, reps)/              post option-b-is-normalised-by-grid_prep_opt-with-kind-float-... (refuted)
+#   s/n = grid_prep_opt(n, d, int, reps)/n = grid_prep_opt(n, d, float, reps)/                post option-n-is-normalised-by-grid_prep_opt-with-kind-int-... (refuted)
+#   s/elif d != len(item):/elif d < len(item):/                                               raise-iff returns-only-if-all-list-like-options-have-length-d (refuted)
+#   s/return a, b, n/return b, a, n/                                                          post returns-the-three-normalised-options-in-the-order-a-b-n (refuted)
+#   s/opt = np.asanyarray(opt, dtype=kind)/opt = np.asanyarray(opt, dtype=kind)[:d]/          safety operand-not-None, post same-integer-vector-whatever-the-dimension-argument (refuted)
+#   quiet (equivalent on the returning path): grid_prep_opt(a, len(n), float, reps)
